@@ -176,6 +176,24 @@ def run(chk):
 
     from .. import kinds as _kinds
 
+    # ---- R8 the SQL Rename branch, interpreted on stub state (sqlsim)
+    chk.rule("R8", "SQL rename interpreted on stub state: every visible column carries its new label (also when a hidden column has the same label), the selection is unchanged")
+    from ..interp import PyRaise, SymbolicBranch
+    from ..sqlsim import SqlWorld, branch_body, rename_scenarios
+
+    try:
+        rb = branch_body(scfg.func, scfg.subject, "Rename")
+        if rb is None:
+            raise AnalysisError("no `isinstance(nd, Rename)` branch in SqlImpl.compile_ast")
+        res_r = rename_scenarios(SqlWorld(repo), rb)
+        for desc, ok_, detail in res_r:
+            chk.ob("R8", sql, scfg.func, f"sql Rename interpreted: {desc}", ok_, detail)
+        chk.floor("R8", "SQL rename scenarios", len(res_r), 5)
+    except (AnalysisError, SymbolicBranch) as e:
+        chk.undecided.append(f"R8: the SQL Rename branch could not be interpreted ({str(e)[:140]})")
+    except PyRaise as p_:
+        chk.ob("R8", sql, scfg.func, "sql Rename branch on stub state", False, f"the SQL Rename branch raises {p_.name}: {p_.msg}")
+
     chk.rule("R7", "rename only changes names: the cache resolves current names through the name maps, never through a Col object's creation-time .name")
     chk.floor("R7", "Col.name uses in the cache layer", _kinds.cache_name_discipline(chk, "R7"), 2)
 
